@@ -248,3 +248,88 @@ _inst_before_lemmas = instances
 def instances(tier):       # noqa: F811
     from .common import lemma_instance
     return _inst_before_lemmas(tier) + [lemma_instance('C10', 'psd', 'lemma:weighted-outer-products-are-psd')]
+
+
+# ----------------------------------------------------------------------------- bounded: the whole range of the quantifier
+def psd_range_bounded_instance():
+    """Default-layout PSD over the sizes of the quantifier (0..3 leading axes, D 1..8, T 1..64, K 1..5), element types (complex128 /
+    complex64 / real observations; float64 / float32 / bool / int masks; zero masks), memory orders, against the defining sum
+    evaluated with explicit loops; plus condition_covariance."""
+    from pb_bss.extraction import beamformer as bf
+
+    def make(B):
+        return {'lead': B.choose('lead', [(), (3,), (2, 2), (2, 1, 2)]), 'D': B.choose('D', [1, 2, 3, 5, 8]), 'T': B.choose('T', [1, 2, 7, 64]),
+                'K': B.choose('K', [None, None, 1, 2, 5]), 'odt': B.choose('odt', ['c128', 'c128', 'c64', 'f64']),
+                'mdt': B.choose('mdt', ['none', 'f64', 'f64', 'f32', 'bool', 'zero']), 'norm': B.choose('norm', [True, True, False]),
+                'order': B.choose('order', ['C', 'F']), 'seed': B.choose('seed', list(range(5000))), 'd': B.given('d', np.zeros(1))}
+
+    def call(inp):
+        rng = np.random.RandomState(inp['seed'])
+        lead, D, T, K = tuple(inp['lead']), inp['D'], inp['T'], inp['K']
+        x = rng.normal(size=lead + (D, T)) + 1j * rng.normal(size=lead + (D, T))
+        x = {'c128': x, 'c64': x.astype(np.complex64), 'f64': x.real.copy()}[inp['odt']]
+        mshape = lead + ((T,) if K is None else (K, T))
+        m = rng.uniform(0.0, 1.0, size=mshape)
+        mdt = inp['mdt']
+        if mdt == 'none':
+            mask = None
+        elif mdt == 'bool':
+            mask = m > 0.4
+        elif mdt == 'int':
+            mask = (m > 0.4).astype(np.int64) * 2
+        elif mdt == 'zero':
+            mask = np.zeros(mshape)
+        else:
+            mask = m.astype(np.float32 if mdt == 'f32' else np.float64)
+        if inp['order'] == 'F':
+            x = np.asfortranarray(x)
+            mask = None if mask is None else np.asfortranarray(mask)
+        x0 = x.copy()
+        m0 = None if mask is None else mask.copy()
+        with np.errstate(all='ignore'):
+            psd = bf.get_power_spectral_density_matrix(x, mask, normalize=inp['norm'])
+            cond = bf.condition_covariance(psd, 0.1) if psd.ndim >= 2 else None
+        return {'psd': np.asarray(psd), 'x': x0, 'mask': m0, 'untouched': bool(np.array_equal(x, x0) and (mask is None or np.array_equal(mask, m0))),
+                'cond': None if cond is None else np.asarray(cond)}
+
+    def ensures(sp, inp, out):
+        lead, D, T, K = tuple(inp['lead']), inp['D'], inp['T'], inp['K']
+        x, mask, psd = out['x'].astype(np.complex128), out['mask'], out['psd']
+        want = lead + ((D, D) if (K is None or mask is None) else (K, D, D))
+        yield 'shape', bool(psd.shape == want)
+        yield 'arguments-untouched', out['untouched']
+        if psd.shape != want:
+            return
+        tol = 1e-4 if inp['odt'] == 'c64' or inp['mdt'] == 'f32' else 1e-10
+        ref = np.zeros(want, dtype=complex)
+        for li in np.ndindex(*lead):
+            for k in range(1 if (K is None or mask is None) else K):
+                if mask is None:
+                    mm = np.ones(T) / T
+                else:
+                    mm = np.asarray(mask[li] if K is None else mask[li + (k,)], dtype=float)
+                    if inp['norm']:
+                        mm = mm / max(mm.sum(), 1e-10)
+                acc = np.zeros((D, D), dtype=complex)
+                for t in range(T):
+                    acc += mm[t] * np.outer(x[li][:, t], np.conj(x[li][:, t]))
+                ref[li + (() if (K is None or mask is None) else (k,))] = acc
+        yield 'equals-mask-weighted-mean-outer-product', bool(np.all(np.isfinite(psd)) and np.allclose(psd, ref, rtol=tol, atol=tol))
+        yield 'hermitian', bool(np.allclose(psd, np.conj(np.swapaxes(psd, -1, -2)), rtol=tol, atol=tol))
+        ev = np.linalg.eigvalsh(0.5 * (ref + np.conj(np.swapaxes(ref, -1, -2))))
+        yield 'positive-semidefinite', bool(np.all(np.linalg.eigvalsh(0.5 * (psd + np.conj(np.swapaxes(psd, -1, -2)))) >= -1e-6 * max(1.0, float(np.max(np.abs(ev))))))
+        if out['cond'] is not None:
+            tr = np.trace(psd, axis1=-1, axis2=-2)[..., None, None]
+            want_c = (psd + 0.1 * tr / D * np.eye(D)) / 1.1
+            yield 'condition_covariance-formula-and-trace', bool(np.allclose(out['cond'], want_c, rtol=max(tol, 1e-9), atol=max(tol, 1e-9))
+                                                                 and np.allclose(np.trace(out['cond'], axis1=-1, axis2=-2), tr[..., 0, 0], rtol=max(tol, 1e-9), atol=max(tol, 1e-9)))
+
+    return Instance('C10', 'pb_bss.extraction.beamformer:get_power_spectral_density_matrix', 'bounded-sizes-and-element-types', make, call, ensures,
+                    mode='bounded', bounded_n=150, frame=False)
+
+
+_inst_before_range = instances
+
+
+def instances(tier):       # noqa: F811
+    return _inst_before_range(tier) + [psd_range_bounded_instance()]
